@@ -50,6 +50,9 @@ class KeyServer:
             l0, l1, l2 = self.now
         if l1 == -1 or l2 == -1 or not (0 <= l1 <= 31 and 0 <= l2 <= 31):
             raise ValueError("reference DC: unsupported key id")
+        if getattr(self, "reply_at_now", False) and l0 == self.now[0] and (l1, l2) <= tuple(self.now[1:]):
+            # another conforming answer: the newest seed keys the caller may hold, which cover the requested position
+            l1, l2 = self.now[1:]
         ch = self.chain(rec, bytes(target_sd), l0)
         common = dict(version=rec.version, l0=l0, l1=l1, l2=l2, root_key_identifier=rec.id, kdf_algorithm="SP800_108_CTR_HMAC",
                       kdf_parameters=rec.kdf_parameters, secret_algorithm=rec.secret_algorithm, secret_parameters=rec.secret_parameters,
